@@ -598,7 +598,14 @@ class Network:
 
         pending = {direct_task, indirect_task}
         while pending:
-            done, pending = await asyncio.wait(pending, return_when=asyncio.FIRST_COMPLETED)
+            try:
+                done, pending = await asyncio.wait(pending, return_when=asyncio.FIRST_COMPLETED)
+            except asyncio.CancelledError:
+                # The request itself got cancelled: stop both attempts
+                for pending_task in pending:
+                    pending_task.cancel()
+                await asyncio.gather(*pending, return_exceptions=True)
+                raise
 
             connections = []
             for done_task in done:
